@@ -247,7 +247,7 @@ CONDITIONS = [
          params=[("ent", "int"), ("alg", "int"), ("rs", "int"), ("mut", "int"), ("vkey", "int"), ("response", "bool")],
          pre=["0 <= ent < 3", "0 <= alg < 5", "0 <= rs < %d" % len(RS), "0 <= mut < %d" % len(MUT), "0 <= vkey < 3"],
          partitions={"quick": [{"mut": m, "alg": (m + e) % 5, "rs": _rs_for(m, e), "response": (m + e) % 2 == 0, "ent": e} for m in range(len(MUT)) for e in range(3)],
-                     "thorough": [{"mut": m, "alg": a, "response": (m + a) % 2 == 0} for m in range(len(MUT)) for a in range(5)]},
+                     "thorough": [{"mut": m, "alg": a, "response": (m + a) % 2 == 0, "ent": (m + a) % 3} for m in range(len(MUT)) for a in range(5)]},
          timeout={"quick": 600, "thorough": 1200}, path_timeout=60,
          functions=["pack.http_redirect_message (signed branch)", "sigver.verify_redirect_signature", "sigver.RSACrypto.get_signer", "sigver.RSASigner.sign/verify"],
          bounds="3 signing entities x 5 RSA-SHA algorithms x RelayState {absent, plain, with '&' and '=', with a percent escape, with a bare '%', with '+' and blanks} x 17 single mutations of the signed query x verification under each of the 3 keys x request/response"),
@@ -257,7 +257,7 @@ CONDITIONS.append(
     Cond(name="entities", fn="entities", params=[("first", "int"), ("a1", "int"), ("a2", "int"), ("rs", "int"), ("third", "bool"), ("received", "int")],
          pre=["0 <= first <= 1", "0 <= a1 < 5", "0 <= a2 < 5", "0 <= rs < %d" % len(RS), "0 <= received <= 3"],
          partitions={"quick": [{"a1": a, "a2": a, "rs": a % len(RS)} for a in range(5)] + [{"a1": 2, "a2": 4, "rs": 1}],
-                     "thorough": [{"a1": a, "a2": b} for a in range(5) for b in range(5)]},
+                     "thorough": [{"a1": a, "a2": b, "first": (a + b) % 2} for a in range(5) for b in range(5)]},
          timeout={"quick": 600, "thorough": 1200}, path_timeout=120,
          functions=["entity.Entity.apply_binding (HTTP-Redirect, sign=True)", "httpbase.HTTPBase.use_http_get", "pack.http_redirect_message", "sigver.verify_redirect_signature"],
          bounds="two Saml2Client entities with distinct keys in one process signing one after the other (either order, optionally the first again), same or different algorithms; each entity may first have verified a redirect received from the other (own backend, peer's key); every URL is also verified by a neutral third backend"))
